@@ -895,36 +895,15 @@ def translate(repo):
 def emit_lean(t):
     L = []
     A = L.append
+    N = lambda x: "n! " + lean_str(x)
+    A("import Iox2.Model.Ffi")
     A("/- GENERATED by /verif/extract/ffi_errors.py from the Rust sources of the C binding — DO NOT EDIT.")
-    A("   Regenerated on every run of `./check C18`. One entry per C error enum of iceoryx2-ffi/c/src/api. -/")
+    A("   Regenerated on every run of `./check C18`. One entry per C error enum of iceoryx2-ffi/c/src/api.")
+    A("   `n! \"text\"` = the name spelling `text` (Iox2/Model/Ffi.lean). -/")
     A("namespace Iox2.Gen.FfiErrors")
+    A("open Iox2.Ffi")
     A("")
-    A("/-- one variant of a C enum: name, evaluated discriminant, printable name (\"\" = the enum has none) -/")
-    A("structure CVariant where")
-    A("  name : String")
-    A("  code : Int")
-    A("  printable : String")
-    A("deriving DecidableEq, Repr")
-    A("")
-    A("/-- `impl IntoCInt for rustEnum`: `rustVariants` = every variant of the Rust enum definition")
-    A("    (payload enums flattened where the match looks into them), `table` = (rust variant, C variant) -/")
-    A("structure Mapping where")
-    A("  rustEnum : String")
-    A("  rustVariants : List String")
-    A("  table : List (String × String)")
-    A("deriving DecidableEq, Repr")
-    A("")
-    A("structure CEnum where")
-    A("  name : String")
-    A("  file : String")
-    A("  hasStringFn : Bool")
-    A("  variants : List CVariant")
-    A("  /-- C variants the binding returns by itself (mentioned outside the enum definition, the mappings and the export stubs) -/")
-    A("  direct : List String")
-    A("  mappings : List Mapping")
-    A("deriving DecidableEq, Repr")
-    A("")
-    A(f"/-- `pub const IOX2_OK: c_int` -/")
+    A("/-- `pub const IOX2_OK: c_int` -/")
     A(f"def IOX2_OK : Int := {t['ok']}")
     A("")
     names = []
@@ -933,21 +912,21 @@ def emit_lean(t):
         names.append(dn)
         A(f"/-- {e['file']}:{e['line']} ({e['rule']}) -/")
         A(f"def {dn} : CEnum where")
-        A(f"  name := {lean_str(e['name'])}")
+        A(f"  name := {N(e['name'])}")
         A(f"  file := {lean_str(e['file'])}")
         A(f"  hasStringFn := {'true' if e['stringFns'] else 'false'}")
         A("  variants := [")
-        A(",\n".join(f"    ⟨{lean_str(v['name'])}, {v['code']}, {lean_str(v['printable'])}⟩" for v in e["variants"]) + "]")
-        A("  direct := [" + ", ".join(lean_str(v["name"]) for v in e["variants"] if v["direct"]) + "]")
+        A(",\n".join(f"    ⟨{N(v['name'])}, {v['code']}, {N(v['printable'])}⟩" for v in e["variants"]) + "]")
+        A("  direct := [" + ", ".join(N(v["name"]) for v in e["variants"] if v["direct"]) + "]")
         if not e["mappings"]:
             A("  mappings := []")
         else:
             A("  mappings := [")
             ms = []
             for m in e["mappings"]:
-                s = f"    {{ rustEnum := {lean_str(m['rustEnum'])},\n"
-                s += "      rustVariants := [" + ", ".join(lean_str(x) for x in m["rustVariants"]) + "],\n"
-                s += "      table := [" + ",\n        ".join(f"({lean_str(r['rust'])}, {lean_str(r['c'])})" for r in m["table"]) + "] }"
+                s = f"    {{ rustEnum := {N(m['rustEnum'])},\n"
+                s += "      rustVariants := [" + ", ".join(N(x) for x in m["rustVariants"]) + "],\n"
+                s += "      table := [" + ",\n        ".join(f"({N(r['rust'])}, {N(r['c'])})" for r in m["table"]) + "] }"
                 ms.append(s)
             A(",\n".join(ms) + "]")
         A("")
